@@ -139,6 +139,21 @@ CHECKS["C11"] = (
     "5/C11",
 )
 
+CHECKS["C13"] = (
+    "Events.tla + Drawing.tla + DrawingMC.tla + THL.tla (SpecGen) + TraceDrawing.tla",
+    "TLC: the abstract drawing derived from the event model (one event node per object node, loss markers = loss sites, one arrow per transfer) adds up to the cost of every valid reconciliation of the bounded inputs (DrawCostInv); every TLC-enumerated valid reconciliation and random larger ones are laid out and drawn in both orientations with a stub measurer, layout branches and TikZ statements (located by coordinates) are projected and judged by a TLA+ trace spec against the abstract drawing",
+    "Model checking of the drawing/cost correspondence in the specification plus trace validation of real layouts and generated TikZ against the abstract drawing.",
+    "Trusts TLC, Drawing.tla, the TikZ statement parser and coordinate matching of checks/render_common.py; stub TeX measurer (sizes 1-100) consumed in call order; object <= 4 (5) leaves exhaustively, up to 10 sampled.",
+    "5/C13",
+)
+CHECKS["C14"] = (
+    "Geometry.tla + Packing.tla + TraceGeometry.tla",
+    "TLC: the subtree packing of _layout_subtrees as a state machine in integer arithmetic (sizes bottom-up, boxes top-down, both hand-written orientations) for every species shape and trunk-size assignment of the bound: sibling boxes disjoint and inside the parent, trunks disjoint, horizontal = transposed vertical; computed layouts of enumerated and random reconciliations (seeded sizes, perturbed parameters) are projected to integer rectangles and judged by a TLA+ trace spec (contract, anchors referenced exist, mirror pair, repetition)",
+    "Model checking of one stage of the layout (the packing design) against the geometric contract, and trace validation of real layouts against the same contract; TLC does not enumerate layouts as such.",
+    "Trusts TLC, Geometry.tla and the projection of checks/render_common.py (dyadic coordinates scaled by 4096); stub measurer; conformance of the code to the packing model is not claimed, only to the contract.",
+    "5/C14",
+)
+
 NOT_YET = {}
 
 
